@@ -64,7 +64,7 @@ pub fn plan(id: &str, tier: Tier) -> Plan {
     let over: Option<f64> = std::env::var("VERIF_CAP_OVERRIDE").ok().and_then(|s| s.parse().ok());
     let q = |a: f64, b: f64| over.unwrap_or(if tier.thorough() { b } else { a });
     match id {
-        "C15" => Plan { cap_s: 30.0, shards: 1, seeded: false },
+        "C15" => Plan { cap_s: q(40.0, 600.0), shards: n, seeded: false },
         "C17" | "C09" => Plan { cap_s: q(55.0, 900.0), shards: n, seeded: false },
         "C02" | "C03" | "C04" | "C05" | "C10" => Plan { cap_s: q(40.0, 900.0), shards: n, seeded: false },
         _ => Plan { cap_s: q(40.0, 600.0), shards: n, seeded: false },
